@@ -83,6 +83,10 @@ type DgramLink struct {
 }
 
 type Net struct {
+	// CloseYields makes StreamConn.Close a scheduling point (instrumented
+	// builds only: there a task may park while it holds library locks).
+	CloseYields bool
+
 	K      *kernel.K
 	Stream StreamLink
 	Dgram  DgramLink
@@ -415,6 +419,9 @@ func sortInts(a []int) {
 //go:norace
 func (c *StreamConn) Close() error {
 	k := c.n.K
+	if c.n.CloseYields {
+		k.Yield(c.Role+".stream.Close", c.ID)
+	}
 	k.Lock()
 	defer k.Unlock()
 	c.Closes++
@@ -628,8 +635,8 @@ type Datagram struct {
 	Injected  bool
 	Modified  bool // link altered or truncated the payload
 	Dropped   bool
-	Delivered bool // handed to a reader
-	TruncRead bool // reader's buffer was smaller than the datagram
+	Delivered bool   // handed to a reader
+	TruncRead bool   // reader's buffer was smaller than the datagram
 	Seen      []byte // the octets the reader was actually handed (server side)
 	SentSeq   uint64
 	RecvSeq   uint64
